@@ -259,3 +259,106 @@ Lemma run_num_int_cast op n x :
 Proof.
   unfold run_num. cbn [as_i64]. rewrite (wrap64_id (as_i64 x)) by apply as_i64_range. reflexivity.
 Qed.
+
+(* ------------------------------------------------ float bounds *)
+Lemma fl_rem_spec v n : fl_is_zero v = false -> fl_is_zero (fl_rem v n) = spec_multiple v n.
+Proof.
+  intros Hv. destruct v as [| s | m e]; [reflexivity|reflexivity|].
+  destruct n as [| s' | m' e']; [reflexivity| |].
+  - cbn [fl_rem]. rewrite Hv. reflexivity.
+  - rewrite fl_is_zero_fin in Hv. apply Z.eqb_neq in Hv.
+    unfold fl_rem, spec_multiple.
+    set (k := Z.min e e').
+    assert (H1 : 0 < 2 ^ (e - k)) by (apply pow2_pos; unfold k; lia).
+    assert (H2 : 0 < 2 ^ (e' - k)) by (apply pow2_pos; unfold k; lia).
+    destruct (Z.eqb_spec m' 0) as [E|E].
+    + subst m'. cbn [Z.mul Z.eqb fl_is_zero].
+      destruct (Z.eqb_spec (m * 2 ^ (e - k)) 0) as [F|F]; [|reflexivity].
+      apply Z.mul_eq_0 in F. destruct F; [contradiction|lia].
+    + rewrite fl_is_zero_fin.
+      destruct (Z.eqb_spec (m' * 2 ^ (e' - k)) 0) as [F|F].
+      { apply Z.mul_eq_0 in F. destruct F; [contradiction|lia]. }
+      apply rem_mod_zero. exact F.
+Qed.
+
+Lemma num_is_zero_as_f64 x : as_f64 x = ext_of_num x -> fl_is_zero (as_f64 x) = num_is_zero x.
+Proof.
+  intros E. rewrite E. destruct x as [z|b]; cbn [ext_of_num num_is_zero]; [apply fl_is_zero_fin|reflexivity].
+Qed.
+
+Lemma num_exact_float op f x :
+  as_f64 x = ext_of_num x ->
+  (op = OMul -> num_is_zero x = false) ->
+  run_num op (BF f) x = of_bool (spec_num op (BF f) x).
+Proof.
+  intros E Hm. unfold run_num, spec_num, ext_of_bound. destruct op.
+  - rewrite (num_is_zero_as_f64 x E), (Hm eq_refl), andb_false_r.
+    rewrite fl_rem_spec by (rewrite (num_is_zero_as_f64 x E); exact (Hm eq_refl)).
+    rewrite E. reflexivity.
+  - unfold maximum_cmp_gen. rewrite cmp_fl_le, E. reflexivity.
+  - unfold minimum_cmp_gen. rewrite cmp_fl_ge, E. reflexivity.
+Qed.
+
+Lemma rne_small z : Z.abs z < 2 ^ 53 -> rne z = FFin z 0.
+Proof. intros H. unfold rne. destruct (Z.ltb_spec (Z.abs z) (2 ^ 53)); [reflexivity|lia]. Qed.
+
+(* ------------------------------------------------ all numeric pairs *)
+Lemma class2_zero strict op b x :
+  pair_class2 strict (KNum op b) (ANum x) = 0%N ->
+  pair_class strict (KNum op b) (ANum x) = 0%N /\
+  (op = OMul ->
+   num_is_zero x = false /\
+   match b with BI n => n <> 0 /\ ~ (as_i64 x = I64_MIN /\ n = -1) | BF _ => True end).
+Proof.
+  unfold pair_class2. destruct (pair_class strict (KNum op b) (ANum x)); [|discriminate].
+  intros H. split; [reflexivity|]. intros ->.
+  unfold multiple_of_zero_guard_gen in H. cbn [andb] in H.
+  destruct (num_is_zero x); [discriminate|]. split; [reflexivity|].
+  destruct b as [n|f]; [|exact I].
+  destruct (Z.eqb_spec n 0) as [|Hn]; [discriminate|]. cbn [orb] in H.
+  split; [exact Hn|]. intros [E1 E2].
+  rewrite E1, E2 in H. rewrite !Z.eqb_refl in H. discriminate.
+Qed.
+
+Lemma spec_num_integral op n f m e :
+  decode f = FFin m e -> fl_integral_i64 (FFin m e) = true ->
+  spec_num op (BI n) (NF f) = spec_num op (BI n) (NI (f2i (FFin m e))).
+Proof.
+  intros D Hi. destruct (integral_fin m e Hi) as (_ & C1 & C2 & C3 & _).
+  unfold spec_num, ext_of_num, ext_of_bound. rewrite D. destruct op.
+  - rewrite C3, spec_multiple_int. reflexivity.
+  - rewrite spec_le_int. unfold spec_le. rewrite C1. unfold Z.leb. destruct (f2i (FFin m e) ?= n); reflexivity.
+  - rewrite spec_le_int. unfold spec_le. rewrite C2. unfold Z.leb. destruct (n ?= f2i (FFin m e)); reflexivity.
+Qed.
+
+Theorem num_exact strict op b x :
+  pair_class2 strict (KNum op b) (ANum x) = 0%N ->
+  run_num op b x = of_bool (spec_num op b x).
+Proof.
+  intros H. apply class2_zero in H. destruct H as [PC Hm].
+  destruct b as [n|f]; destruct x as [z|g]; cbn [pair_class] in PC.
+  - (* integer value, integer bound *)
+    assert (Hin : in_i64 z).
+    { destruct (Z.ltb_spec z I64_MIN); [discriminate|]. destruct (Z.ltb_spec I64_MAX z); [discriminate|].
+      split; lia. }
+    apply num_exact_int; [exact Hin|]. intros ->. destruct (Hm eq_refl) as (Hz & Hn & Hp).
+    cbn [num_is_zero] in Hz. apply Z.eqb_neq in Hz.
+    cbn [as_i64] in Hp. rewrite wrap64_id in Hp by exact Hin. auto.
+  - (* float value, integer bound: an integer inside the i64 range *)
+    destruct (fl_integral_i64 (decode g)) eqn:Hi; [|discriminate].
+    destruct (decode g) as [| s | m e] eqn:D; [discriminate|discriminate|].
+    destruct (integral_fin m e Hi) as (Hin & _ & _ & _ & Hz0).
+    rewrite run_num_int_cast. cbn [as_i64]. rewrite D.
+    rewrite (spec_num_integral op n g m e D Hi).
+    apply num_exact_int; [exact Hin|]. intros ->. destruct (Hm eq_refl) as (Hz & Hn & Hp).
+    cbn [num_is_zero] in Hz. rewrite D, fl_is_zero_fin in Hz. rewrite <- Hz0 in Hz. apply Z.eqb_neq in Hz.
+    cbn [as_i64] in Hp. rewrite D in Hp. auto.
+  - (* integer value, float bound: below 2^53 the conversion is exact *)
+    apply num_exact_float.
+    + cbn [as_f64 ext_of_num]. apply rne_small.
+      destruct (strict && ((z <? I64_MIN) || (I64_MAX <? z))); [discriminate|].
+      destruct (Z.leb_spec (2 ^ 53) (Z.abs z)); [discriminate|lia].
+    + intros ->. exact (proj1 (Hm eq_refl)).
+  - (* float value, float bound *)
+    apply num_exact_float; [reflexivity|]. intros ->. exact (proj1 (Hm eq_refl)).
+Qed.
